@@ -45,6 +45,10 @@ URLS = [
     "http://127.0.0.1:1/items?q='; drop: 1#frag",
     "http://127.0.0.1:1/%F0%9F%98%80/x?y=\\n",
     "http://127.0.0.1:1/i?colon=a: b&brace={x}",
+    # credentials in the authority (replaced by a marker when sanitisation is on)
+    "http://user:pw@127.0.0.1:1/items?api_key=abc&q=1",
+    "http://:pw@127.0.0.1:1/items",
+    "http://tok@127.0.0.1:1/items?q=it's",
 ]
 HEADER_VALUES = ["plain", "it's", 'say "hi"', "back\\slash", "a: b", "é-latin", "x" * 40, "", "{json: [1]}", "- dash", "# hash", "'", "%41", "tab\tin"]
 BODIES = [None, b"", b"plain", b'{"a": "it\'s"}', b"line1\nline2", b"ctl\x01\x02\x1f", "next\x85line".encode(), "sep para ".encode(), b"\xff\xfe invalid", b"\xed\xa0\x80", b"'single' \"double\" \\back", b": colon # hash - dash", b"\t tab \r cr", "emoji \U0001f600".encode(), b"x" * 3000]
@@ -166,7 +170,7 @@ class Factory:
         return out, expected
 
 
-def drive(factory, history, fmt, preserve_bytes, path):
+def drive(factory, history, fmt, preserve_bytes, path, sanitize=False):
     """Feed events to the real handler; -> list of exceptions."""
     from click.utils import LazyFile
 
@@ -185,7 +189,7 @@ def drive(factory, history, fmt, preserve_bytes, path):
         if fmt == "junit":
             handler = JunitXMLHandler(lazy)
         else:
-            handler = CassetteWriter(format=ReportFormat.VCR if fmt == "vcr" else ReportFormat.HAR, path=lazy, sanitize_output=False, preserve_bytes=preserve_bytes)
+            handler = CassetteWriter(format=ReportFormat.VCR if fmt == "vcr" else ReportFormat.HAR, path=lazy, sanitize_output=sanitize, preserve_bytes=preserve_bytes)
         handler.start(ctx)
         for event in history:
             try:
@@ -214,7 +218,7 @@ def utf8_or_none(data):
         return None
 
 
-def check_vcr(path, expected, preserve_bytes):
+def check_vcr(path, expected, preserve_bytes, sanitize=False):
     import yaml
 
     viols = []
@@ -239,12 +243,12 @@ def check_vcr(path, expected, preserve_bytes):
         item = items[0]
         n += 1
         req = item["request"]
-        if req["uri"] != ex["url"]:
+        if req["uri"] != ex["url"] and not sanitize:
             viols.append(("C16/vcr-url-differs", f"{req['uri']!r} vs sent {ex['url']!r}"))
         if req["method"] != ex["method"]:
             viols.append(("C16/vcr-method-differs", f"{req['method']} vs {ex['method']}"))
         got_headers = {k: v[0] for k, v in (req.get("headers") or {}).items()}
-        if got_headers != {k: v for k, v in ex["request_headers"].items()}:
+        if got_headers != {k: v for k, v in ex["request_headers"].items()} and not sanitize:
             viols.append(("C16/vcr-request-headers-differ", f"{got_headers} vs {ex['request_headers']}"[:300]))
         body = ex["request_body"]
         if body is not None:
@@ -261,7 +265,7 @@ def check_vcr(path, expected, preserve_bytes):
             resp = item.get("response") or {}
             if str((resp.get("status") or {}).get("code")) != str(ex["response"]["status"]):
                 viols.append(("C16/vcr-status-differs", f"{resp.get('status')} vs {ex['response']['status']}"))
-            if {k: v for k, v in (resp.get("headers") or {}).items()} != ex["response"]["headers"]:
+            if {k: v for k, v in (resp.get("headers") or {}).items()} != ex["response"]["headers"] and not sanitize:
                 viols.append(("C16/vcr-response-headers-differ", f"{resp.get('headers')} vs {ex['response']['headers']}"[:300]))
             content = ex["response"]["content"]
             rb = resp.get("body") or {}
@@ -278,7 +282,7 @@ def check_vcr(path, expected, preserve_bytes):
     return viols, n
 
 
-def check_har(path, expected, preserve_bytes):
+def check_har(path, expected, preserve_bytes, sanitize=False):
     viols = []
     try:
         data = json.load(open(path, encoding="utf-8"))
@@ -292,12 +296,12 @@ def check_har(path, expected, preserve_bytes):
     for entry, ex in zip(entries, expected):
         n += 1
         req = entry["request"]
-        if req["url"] != ex["url"]:
+        if req["url"] != ex["url"] and not sanitize:
             viols.append(("C16/har-url-differs", f"{req['url']!r} vs {ex['url']!r}"))
         if req["method"] != ex["method"]:
             viols.append(("C16/har-method-differs", f"{req['method']} vs {ex['method']}"))
         got_headers = {h["name"]: h["value"] for h in req["headers"]}
-        if got_headers != ex["request_headers"]:
+        if got_headers != ex["request_headers"] and not sanitize:
             viols.append(("C16/har-request-headers-differ", f"{got_headers} vs {ex['request_headers']}"[:300]))
         body = ex["request_body"]
         if body is not None:
@@ -352,18 +356,22 @@ def run_shard(spec, emit):
         history, expected = factory.history(rng)
         shape = "|".join(f"{type(e).__name__[:4]}{getattr(e, 'status', None) and e.status.name[:2]}" for e in history)
         hostile = any(ex["url"] != URLS[0] or (ex["request_body"] or b"") not in (b"", b"plain") for ex in expected)
+        # with sanitisation on, URLs and headers are rewritten (not compared here); everything else must still hold
+        sanitize = rng.random() < 0.3
         for fmt, preserve in (("vcr", False), ("vcr", True), ("har", False), ("har", True), ("junit", False)):
             path = os.path.join(scratch, f"report-{idx}-{fmt}-{int(preserve)}")
-            errors = drive(factory, history, fmt, preserve, path)
-            context = {"format": fmt, "preserve_bytes": preserve, "exchanges": [{k: (v if not isinstance(v, bytes) else v.decode("latin-1")) for k, v in ex.items() if k != "response"} for ex in expected][:4]}
+            errors = drive(factory, history, fmt, preserve, path, sanitize and fmt != "junit")
+            if sanitize:
+                emit.count("sanitized_report_runs")
+            context = {"format": fmt, "preserve_bytes": preserve, "sanitize": sanitize, "exchanges": [{k: (v if not isinstance(v, bytes) else v.decode("latin-1")) for k, v in ex.items() if k != "response"} for ex in expected][:4]}
             for err in errors:
                 key = "C16/report-handler-raised:" + fmt + ":" + err.split(":")[0]
                 emit.viol(key, err, context)
             if fmt == "vcr":
-                viols, compared = check_vcr(path, expected, preserve)
+                viols, compared = check_vcr(path, expected, preserve, sanitize)
                 emit.count("vcr_files_parsed")
             elif fmt == "har":
-                viols, compared = check_har(path, expected, preserve)
+                viols, compared = check_har(path, expected, preserve, sanitize)
                 emit.count("har_files_parsed")
             else:
                 viols, compared = ([], 0) if errors else check_junit(path, history, factory)
